@@ -597,6 +597,67 @@ func (cs *vfc35Case) restore(upTo int, sn vfc35Snap) {
 	cs.note("state after step %d of the fault-free history restored (%d bucket objects, shipper file present=%v)", upTo-1, len(sn.objs), sn.shipperFile != nil)
 }
 
+// vfc35LocalState: what a process killed BETWEEN LOCAL FILE-SYSTEM STEPS of Shipper.upload leaves in the staging
+// directory thanos/upload/<block>: any subset of the block's files (= every prefix of every possible linking order),
+// no staging directory at all, a staging directory without chunks/, or everything plus a half-written meta.json.tmp.
+type vfc35LocalState struct {
+	Block string   `json:"block"`
+	Files []string `json:"files_present_in_staging_dir"`
+	Extra string   `json:"extra,omitempty"` // "" | "no-staging-dir" | "no-chunks-subdir" | "meta.json.tmp-half-written"
+}
+
+func (l vfc35LocalState) String() string {
+	if l.Extra != "" {
+		return fmt.Sprintf("{%s}+%s", strings.Join(l.Files, ","), l.Extra)
+	}
+	return "{" + strings.Join(l.Files, ",") + "}"
+}
+
+// applyLocalState rewrites thanos/upload/<block> to the given state (hard links to the block's own files, as
+// hardlinkBlock makes them).
+func (cs *vfc35Case) applyLocalState(l vfc35LocalState) {
+	up := filepath.Join(cs.tsdb, "thanos", "upload", l.Block)
+	if err := os.RemoveAll(up); err != nil {
+		cs.fatal("%v", err)
+	}
+	if l.Extra == "no-staging-dir" {
+		return
+	}
+	dir := up
+	if l.Extra != "no-chunks-subdir" {
+		dir = filepath.Join(up, block.ChunksDirname)
+	}
+	if err := os.MkdirAll(dir, 0o750); err != nil {
+		cs.fatal("%v", err)
+	}
+	for _, f := range l.Files {
+		if err := os.Link(filepath.Join(cs.tsdb, l.Block, f), filepath.Join(up, f)); err != nil {
+			cs.fatal("%v", err)
+		}
+	}
+	if l.Extra == "meta.json.tmp-half-written" {
+		if err := os.WriteFile(filepath.Join(up, block.MetaFilename+".tmp"), []byte("{\n\t\"ulid\": \""+l.Block[:7]), 0o644); err != nil {
+			cs.fatal("%v", err)
+		}
+	}
+}
+
+// localFiles lists the files of a local block that Shipper.upload stages: meta.json, index, chunks/*.
+func (cs *vfc35Case) localFiles(id string) []string {
+	files := []string{block.MetaFilename, block.IndexFilename}
+	segs, err := os.ReadDir(filepath.Join(cs.stage, id, block.ChunksDirname))
+	if err != nil {
+		segs, err = os.ReadDir(filepath.Join(cs.tsdb, id, block.ChunksDirname))
+	}
+	if err != nil {
+		cs.fatal("%v", err)
+	}
+	for _, sg := range segs {
+		files = append(files, block.ChunksDirname+"/"+sg.Name())
+	}
+	return files
+}
+
 type vfc35Proc struct {
 	cs   *vfc35Case
 	s    *Shipper
@@ -900,7 +961,7 @@ func (cs *vfc35Case) checkAfterSuccess(when string) {
 
 // runHistory replays the history; at step faultStep (0-based; -1 = none) the Sync runs with fault f.
 // Returns the operation log of every first Sync per step (fault-free replay only) for the enumeration.
-func (cs *vfc35Case) runHistory(faultStep int, f vfc35Fault, secondCrash *vfc35Fault, snaps []vfc35Snap, continueAfter bool) (opsPerStep [][]vfc35Op, newSnaps []vfc35Snap, injected *vfc35Op, succeededAfterFault bool) {
+func (cs *vfc35Case) runHistory(faultStep int, f vfc35Fault, secondCrash *vfc35Fault, snaps []vfc35Snap, continueAfter bool, local *vfc35LocalState) (opsPerStep [][]vfc35Op, newSnaps []vfc35Snap, injected *vfc35Op, succeededAfterFault bool) {
 	cs.reset()
 	defer cs.reap()
 	first := 0
@@ -948,6 +1009,12 @@ func (cs *vfc35Case) runHistory(faultStep int, f vfc35Fault, secondCrash *vfc35F
 		} else {
 			cs.note("%s: Sync with fault %s at op #%d (not reached) -> err=%v", when, f.mode(), f.At, err)
 		}
+		if local != nil && crashed {
+			// the kill did not happen inside the bucket operation but earlier, between local file-system steps of
+			// Shipper.upload for this block: same bucket, same directory, staging directory in the given state
+			cs.applyLocalState(*local)
+			cs.note("%s: (local crash state) the process was killed earlier, inside Shipper.upload of %s: thanos/upload/%s holds %s", when, local.Block, local.Block, local.String())
+		}
 		cs.checkRecorded(when + " after faulted Sync (" + f.mode() + ")")
 		if err == nil && !crashed {
 			cs.checkAfterSuccess(when + " after faulted Sync returned nil (" + f.mode() + ")")
@@ -984,6 +1051,73 @@ func (cs *vfc35Case) runHistory(faultStep int, f vfc35Fault, secondCrash *vfc35F
 		}
 	}
 	return opsPerStep, newSnaps, injected, succeededAfterFault
+}
+
+// vfc35LocalCrashStates: for every block that the fault-free Sync of step si uploads, the history is replayed with the
+// process killed inside Shipper.upload of that block BEFORE its first bucket operation; the staging directory is left in
+// every state an interrupted hardlinkBlock / meta rewrite can leave, independent of the order in which files are linked:
+// every subset of {meta.json, index, chunks/*} (<= 32 subsets), plus no staging dir, no chunks/ sub-directory and a
+// half-written meta.json.tmp. Then a new Shipper runs on the directory; the usual oracle applies.
+func vfc35LocalCrashStates(cs *vfc35Case, rng *rand.Rand, si int, ops []vfc35Op, snaps []vfc35Snap) {
+	r := cs.r
+	firstUpload := map[string]int{}
+	var order []string
+	for _, o := range ops {
+		if o.Kind != "upload" {
+			continue
+		}
+		id := o.Name[:strings.IndexByte(o.Name, '/')]
+		if _, ok := firstUpload[id]; !ok {
+			firstUpload[id] = o.Seq
+			order = append(order, id)
+		}
+	}
+	for _, id := range order {
+		files := cs.localFiles(id)
+		var states []vfc35LocalState
+		for mask := 0; mask < 1<<len(files); mask++ {
+			st := vfc35LocalState{Block: id}
+			for i, f := range files {
+				if mask&(1<<i) != 0 {
+					st.Files = append(st.Files, f)
+				}
+			}
+			states = append(states, st)
+		}
+		states = append(states,
+			vfc35LocalState{Block: id, Extra: "no-staging-dir"},
+			vfc35LocalState{Block: id, Extra: "no-chunks-subdir"},
+			vfc35LocalState{Block: id, Files: files, Extra: "meta.json.tmp-half-written"})
+		for _, st := range states {
+			st := st
+			f := vfc35Fault{At: firstUpload[id], Freeze: true}
+			_, _, inj, ok := cs.runHistory(si, f, nil, snaps, r.Thorough() || rng.Intn(3) == 0, &st)
+			if r.Replaying() && os.Getenv("VERIF_TRACE") != "" {
+				cs.t.Logf("history (step %d, local crash state %s):\n  %s", si, st.String(), strings.Join(cs.trace, "\n  "))
+			}
+			if inj == nil {
+				r.Count("fault_not_reached", 1)
+				continue
+			}
+			r.Count("histories_with_local_crash_state", 1)
+			if !ok {
+				if cs.expectSuccess() {
+					class := "other"
+					if cs.cfg.UploadCompacted && !cs.cfg.AllowOOO && cs.bucketHasPartialBlock() {
+						class = "overlap-check-fails-on-partial-upload-in-bucket"
+					}
+					r.Count("no_nil_sync_within_3_after_fault:"+class, 1)
+					if class == "other" && r.Counter("no_nil_sync_within_3_after_fault:other") <= 5 {
+						r.Inconclusive(fmt.Sprintf("case %d: after a local crash state %s no Sync returned nil within 3 attempts; history: %s", cs.c, st.String(), strings.Join(cs.trace, " | ")))
+					}
+				}
+				continue
+			}
+			if cs.eligibleOK > 0 {
+				r.Distinct(fmt.Sprintf("%d|%d|local|%s|%s", cs.c, si, id, st.String()))
+			}
+		}
+	}
 }
 
 // bucketHasPartialBlock: some block directory in the bucket has objects but no meta.json.
@@ -1100,14 +1234,14 @@ func TestVF_C35(t *testing.T) {
 	r := vfkit.Start(t, "C35")
 	defer r.Finish()
 	r.Rule("case = a shipper directory with 1..5 (quick tier: 1..3) real TSDB blocks (1..3 segment files; levels 1..3; possibly one block without samples and, with skip-corrupted, one directory without meta.json) x options (upload-compacted, allow-out-of-order, upload concurrency 0|1|4, hash func) x a history of 1..3 steps (blocks appear, external labels may change, Sync); " +
-		"the fault-free history is run first; then for EVERY step and EVERY bucket operation k of that step's Sync the history is replayed with a fault at k (crash = the Sync's goroutines are frozen inside op k and a new Shipper starts on the same directory and bucket; fail-stop lost|applied + restart; fail-once lost|applied, same Shipper - in quick only with allow-out-of-order, where Sync goes on after a failed block), followed by up to 3 Syncs and (quick: in a third of the replays; thorough: always) the rest of the history; replays of a later step start from the recorded durable state (directory, thanos.shipper.json, bucket) of the fault-free history; thorough adds a second crash inside the first restart Sync; " +
+		"the fault-free history is run first; then for EVERY step and EVERY bucket operation k of that step's Sync the history is replayed with a fault at k (crash = the Sync's goroutines are frozen inside op k and a new Shipper starts on the same directory and bucket; fail-stop lost|applied + restart; fail-once lost|applied, same Shipper - in quick only with allow-out-of-order, where Sync goes on after a failed block), plus LOCAL crash states: for every block a Sync uploads, the process is killed inside Shipper.upload before that block's first bucket operation and thanos/upload/<id> is left holding every subset of {meta.json,index,chunks/*} (= every prefix of every linking order), no staging dir, no chunks/ sub-dir, or all files plus a half-written meta.json.tmp; each followed by up to 3 Syncs and (quick: in a third of the replays; thorough: always) the rest of the history; replays of a later step start from the recorded durable state (directory, thanos.shipper.json, bucket) of the fault-free history; thorough adds a second crash inside the first restart Sync; " +
 		"oracle (own JSON reading of local meta.json, thanos.shipper.json and the in-memory bucket): after EVERY Sync and crash thanos.shipper.json lists only blocks whose meta.json is in the bucket with every listed file at its recorded size; after every Sync that returned nil each local block with samples and (level 1 or upload-compacted) has meta.json, every listed file, byte-identical index and chunk segments, and exactly the external labels the shipper had when that meta.json was uploaded; " +
 		"evaluation = one such check; distinct = (case, step, k, fault mode) where the fault was really injected and a later Sync returned nil with >= 1 eligible block verified")
-	n := r.N(8, 40)
+	n := r.N(12, 120)
 	r.Require(int64(n)*50, n*10)
 	r.Assume("'current external labels' = the labels the shipper had when it uploaded the block's meta.json (uploaded blocks are immutable; a later label change cannot and need not reach them)")
 	r.Assume("local blocks are Prometheus blocks without a thanos section; block time ranges do not overlap (otherwise the overlap check legitimately refuses compacted blocks)")
-	r.Assume("crash points are bucket operations; a crash between two local file-system steps of Sync with no bucket operation in between is represented by the nearest bucket operation only")
+	r.Assume("crash points are bucket operations plus the enumerated states of the staging directory thanos/upload/<id>; a kill between the steps of writing thanos.shipper.json (tmp file, rename) is not enumerated")
 	r.Assume("nobody else deletes from the bucket during the history (the shipper's cache of uploaded ids is by design not re-validated)")
 	tmp := t.TempDir()
 	for c := 0; c < n; c++ {
@@ -1129,7 +1263,7 @@ func TestVF_C35(t *testing.T) {
 
 func vfc35RunCase(cs *vfc35Case, rng *rand.Rand) {
 	r := cs.r
-	baseOps, snaps, _, _ := cs.runHistory(-1, vfc35Fault{}, nil, nil, true)
+	baseOps, snaps, _, _ := cs.runHistory(-1, vfc35Fault{}, nil, nil, true, nil)
 	total := 0
 	for _, o := range baseOps {
 		total += len(o)
@@ -1142,6 +1276,7 @@ func vfc35RunCase(cs *vfc35Case, rng *rand.Rand) {
 	r.Sample(map[string]any{"config": cs.cfg, "blocks": cs.blocks, "steps": cs.steps, "bucket_ops_in_fault_free_history": total})
 	for si := range cs.steps {
 		ops := baseOps[si]
+		vfc35LocalCrashStates(cs, rng, si, ops, snaps)
 		for k := 1; k <= len(ops); k++ {
 			// without allow-out-of-order Sync returns at the first failed operation, so a transient failure takes
 			// the same path as fail-stop; the fail-once modes are enumerated where Sync goes on after a failure
@@ -1163,7 +1298,7 @@ func vfc35RunCase(cs *vfc35Case, rng *rand.Rand) {
 					second = &vfc35Fault{At: 1 + rng.Intn(len(ops)+2), Freeze: rng.Intn(2) == 0}
 					second.Stop = !second.Freeze
 				}
-				_, _, inj, ok := cs.runHistory(si, f, second, snaps, r.Thorough() || rng.Intn(3) == 0)
+				_, _, inj, ok := cs.runHistory(si, f, second, snaps, r.Thorough() || rng.Intn(3) == 0, nil)
 				r.Count("histories_with_fault", 1)
 				if r.Replaying() && os.Getenv("VERIF_TRACE") != "" {
 					cs.t.Logf("history (step %d, op %d, %s):\n  %s", si, k, f.mode(), strings.Join(cs.trace, "\n  "))
